@@ -89,17 +89,20 @@ def parseMailbox (s : Bytes) : Option (Bytes × Bytes) :=
         if hasSuffix (lp ++ [64] ++ dom) [64] then none else some (lp ++ [64] ++ dom, rest')
       | _ => none
 
+/-- a source route (`@a,@b:`) in front of the mailbox is skipped up to its colon -/
+def stripRoute (s1 : Bytes) : Option Bytes :=
+  match s1 with
+  | 64 :: t =>
+    match indexByte t 58 with   -- ':'
+    | none => none
+    | some i => some (t.drop (i + 1))
+  | _ => some s1
+
 def parsePath (s : Bytes) : Option (Bytes × Bytes) :=
   let (hasBracket, s1) := match s with
     | 60 :: t => (true, t)
     | _ => (false, s)
-  let s2? : Option Bytes := match s1 with
-    | 64 :: t =>
-      match indexByte t 58 with   -- ':'
-      | none => none
-      | some i => some (t.drop (i + 1))
-    | _ => some s1
-  match s2? with
+  match stripRoute s1 with
   | none => none
   | some s2 =>
     match parseMailbox s2 with
